@@ -80,6 +80,10 @@ func (e *Env) ReopenSorted() error {
 	return nil
 }
 
+// Stopping = Store.SetStopping(): from then on WriteVolumeNeedle(fsync=true) goes through the
+// batched worker (asyncRequestsChan) instead of syncWrite.
+func (e *Env) Stopping() { e.Store.SetStopping() }
+
 func (e *Env) Close() {
 	if e.Store != nil {
 		e.Store.Close()
